@@ -21,7 +21,7 @@ from . import extract
 from .gf import GFLin, GFNonZero, GFLog
 from .sym import (SInt, SBool, Unsupported, ConcretizeError, fresh_int, fresh_bool, fresh_name,
                   s_and, s_or, s_not, s_ite, s_min, s_max, s_implies, zb, _z, mk_bool, is_sym,
-                  range_constraints, same_value, _counter, reset_atoms, QForall, SQuant)
+                  range_constraints, same_value, _counter, reset_atoms, QForall, SQuant, SRatio)
 from .values import (CUR, VBytearray, VBytes, SSeq, SIter, SBits, SRepeat, Obj, TupObj,
                      CountedList, OpaqueSeq, OpaqueElem, OpaqueIter, FieldBuf)
 
@@ -1542,6 +1542,8 @@ class Interp:
                 raise PyRaise(ZeroDivisionError('integer division or modulo by zero'))
             raise Unsupported('division by negative constant')
         if t is ast.Div and (is_sym(a) or is_sym(b)):
+            if isinstance(a, SInt) and isinstance(b, int) and not isinstance(b, bool) and b > 0:
+                return SRatio(a, b)
             raise Unsupported('true division of symbolic value')
         if t is ast.Pow and (is_sym(a) or is_sym(b)):
             if isinstance(b, int) and b == 2:
@@ -1778,6 +1780,9 @@ class Interp:
             itv = self.eval(g.iter, cfr)
             if isinstance(itv, CountedList):
                 raise _CountedComp(itv)
+            if isinstance(itv, SRange) and isinstance(itv.start, int) and itv.step == 1:
+                # small symbolic trip count: fork on its value (complete up to the stated limit, else unsupported)
+                itv = range(itv.start, itv.start + self.concretize(itv.count(), 0, 16))
             if isinstance(itv, (SRange, SSeq, SBits, SRepeat)):
                 raise Unsupported('comprehension over symbolic-length iterable in %s' % fr.qualname)
             it = self.make_iter(itv)
@@ -2068,7 +2073,8 @@ def _build_models(I):
     def m_divmod(a, b):
         if is_sym(a) or is_sym(b):
             if isinstance(b, SInt):
-                raise Unsupported('divmod by symbolic value')
+                # small symbolic divisor: fork on its value
+                b = I.concretize(b, -1, 17)
             if b == 0:
                 raise PyRaise(ZeroDivisionError('integer division or modulo by zero'))
             if b < 0:
@@ -2185,6 +2191,8 @@ def _build_models(I):
     M[float] = m_float
 
     def m_ceil(x):
+        if isinstance(x, SRatio):
+            return x.ceil()
         if is_sym(x):
             raise Unsupported('ceil of symbolic value')
         return math.ceil(x)
